@@ -74,9 +74,19 @@ type baseSink struct {
 	starts    int
 	writeFail func(n int) bool
 	writes    int
+	// stopFail: the file is closed all the same (as the file recorder does when its final rename
+	// fails), the caller is told about the failure
+	stopFail func(n int) bool
+	stops    int
 }
 
 func (b *baseSink) StopRecording() error {
+	n := b.stops
+	b.stops++
+	if b.stopFail != nil && b.stopFail(n) {
+		b.ops = append(b.ops, baseOp{Op: 'P', T: b.clock.now, Err: true})
+		return errors.New("injected stop failure")
+	}
 	b.ops = append(b.ops, baseOp{Op: 'P', T: b.clock.now})
 	return nil
 }
